@@ -277,6 +277,21 @@ class PairSweep(Monitor):
         return res[:1]
 
 
+def _recompute_track_ids(gen, tracks):
+    if gen.rng.random() < 0.3:
+        return {"op": "reload"}
+    f = tracks.features
+    return {"op": "features", "enable": gen.rng.choice([[f.tracklet_key],
+                                                      [f.tracklet_key, f.lineage_key]]),
+            "recompute": True}
+
+
+# after the random part: ids recomputed in bulk (or the tracks saved and loaded), then several
+# nodes added on freshly issued track ids at different frames, then more edits
+TAIL = [_recompute_track_ids, _c06._add_on_next_track, _c06._add_on_next_track,
+        _c06._add_on_next_track, _c06._edit, _c06._add_on_next_track, _c06._edit]
+
+
 def make_monitors(seed=0):
     return [ForestMonitor(), RefusalMonitor(), PairSweep(seed=seed)]
 
@@ -311,7 +326,7 @@ def run_shard(spec):
     # an empty forest needs p_empty=1: handled by max_per_frame 0 below
     return common.run_sessions(spec, PROP, make_monitors, cf, nsteps=(15, 30),
                                weights=WEIGHTS, history_share=0.25,
-                               tail=_c06.TAIL, tail_share=0.3)
+                               tail=TAIL, tail_share=0.4)
 
 
 def floors(tier):
